@@ -1,13 +1,68 @@
-//! C06 — not implemented yet.
+//! C06 — size trigger rolls exactly when the limit is exceeded; size accounting is exact.
+//! Real code: `RollingFileAppender` + `CompoundPolicy(SizeTrigger, roller)` wrapped in the harness
+//! `Policy` probe of `c05.rs`, which compares `LogFile::len_estimate()` with
+//! `fs::metadata(path).len()` at every consultation. Case format and executor are those of C05.
+use crate::c05::{self, Case, RollSpec, TrigChoice, TrigSpec};
+use crate::c04::RecSpec;
+use crate::proto::*;
 use crate::rng::Rng;
 
-pub fn gen(_rng: &mut Rng, _n: usize, _thorough: bool, _emit: &mut dyn FnMut(String)) {}
+const LIMITS: &[u64] = &[0, 1, 7, 1024, 1025];
 
-pub fn exec(_fields: &[&str]) -> String {
-    "unimplemented".to_owned()
+pub fn gen(rng: &mut Rng, n: usize, thorough: bool, emit: &mut dyn FnMut(String)) {
+    // deterministic block: every limit × pre-existing size around the limit × both modes,
+    // records of size limit-1, limit, limit+1, 0, multi-byte text, one above the buffer
+    for &limit in LIMITS {
+        for pre in [None, Some(0), Some(limit.saturating_sub(1)), Some(limit), Some(limit + 1), Some(limit + 1025)] {
+            for append in [true, false] {
+                for (ri, roll) in [RollSpec::Delete, RollSpec::Fw { base: 1, count: 2, pat: 0 }, RollSpec::Fw { base: 0, count: 0, pat: 0 }]
+                    .iter()
+                    .enumerate()
+                {
+                    if ri == 2 && limit != 7 {
+                        continue;
+                    }
+                    let case = Case {
+                        append,
+                        pre_active: pre,
+                        pre_arch: vec![],
+                        trig: TrigSpec::Size(limit),
+                        roll: roll.clone(),
+                        clock0: 1_700_000_000,
+                    };
+                    let mut ops: Vec<String> = vec![];
+                    let mut id = 1;
+                    let mut push = |ops: &mut Vec<String>, sizes: Vec<u64>| {
+                        ops.push(RecSpec::Bin { id, sizes }.render());
+                        id += 1;
+                    };
+                    push(&mut ops, vec![0]);
+                    push(&mut ops, vec![limit.saturating_sub(1)]);
+                    push(&mut ops, vec![1]);
+                    push(&mut ops, vec![1]);
+                    push(&mut ops, vec![limit]);
+                    push(&mut ops, vec![limit + 1]);
+                    ops.push("r".to_owned());
+                    push(&mut ops, vec![limit / 2, limit - limit / 2]);
+                    ops.push(RecSpec::Text { id: 50, text: "é€😀".to_owned() }.render());
+                    push(&mut ops, vec![1023, 1, 1]);
+                    ops.push("r".to_owned());
+                    push(&mut ops, vec![1]);
+                    emit(format!("seq\t{}\t{}", case.render(), enc_list(",", &ops)));
+                }
+            }
+        }
+    }
+    for _ in 0..n {
+        emit(c05::gen_seq_case(rng, thorough, TrigChoice::Size));
+    }
 }
 
-/// child-process entry point (`verif-harness child c06 …`), for checks that need process-global state
+pub fn exec(fields: &[&str]) -> String {
+    c05::exec(fields)
+}
+
+/// child-process entry point (`verif-harness child c06 …`); not needed by this property
 pub fn child(_args: &[String]) -> i32 {
     2
 }
